@@ -31,7 +31,16 @@ def cases(ctx):
         h = H.gen_history(rng, rng.randint(2, 7), nvars0=2, R=rng.choice([6, 10]),
                           weights={"bin": 4, "copy": 1, "not": 1, "move": 2, "scale": 3, "rot": 1, "contains": 2, "float": 3},
                           signed_scale=True)
-        yield {"hist": h, "probe": rng.randrange(2), "proc": i % 6 == 0}
+        probe = rng.randrange(2)
+        # systematically: warm the per-curve cache, then transform in place, then ask (cache invalidation)
+        env = H.impl_run(h)
+        if not isinstance(env[probe], (I.EmptyShape, I.WholeShape)):
+            tr = [("scale", probe, (F(-1), F(-1))), ("scale", probe, (F(-3), F(-3))), ("scale", probe, (F(2), F(2))),
+                  ("scale", probe, (F(1, 2), F(3))), ("rot", probe, (F(3, 5), F(4, 5))), ("rot", probe, (F(-1), F(0))),
+                  ("move", probe, (F(7), F(-2))), ("scale", probe, (F(-1, 2), F(-2)))][i % 8]
+            warm = [("float", probe), ("contains", probe, (F(0), F(0)), True)][i % 2]
+            h = h + [warm, tr]
+        yield {"hist": h, "probe": probe, "proc": i % 6 == 0}
     for i in range(ctx.n(6, 150)):
         from .. import opcases as OC
         env = OC.gen_env(rng, 2, R=rng.choice([6, 10]))
